@@ -29,6 +29,8 @@ STR = ("param", "string")
 PFX = ("slice", STR, Lin.const(0).key(), Lin.const(1).key())
 
 
+CONFIG_SENSITIVE = True      # thorough tier: analysed under all four build configurations
+
 def prefix_fact(s, term=PFX):
     """set of allowed prefix bytes recorded for the slice term, or None"""
     for f in s.facts(term):
